@@ -109,9 +109,9 @@ Forms(mn) ==
     [] mn \in IArithOps -> {"rd,rs1,imm"}
     [] mn \in {"lui", "auipc"} -> {"rd,imm20"}
     [] mn = "jal"  -> {"lab", "rd,lab"}
-    [] mn = "jalr" -> {"rs", "rd,rs,imm", "rd,imm(rs)", "rd,(rs)"}
-    [] mn \in LoadOps \cup LoadOps64 -> {"rd,imm(rs)", "rd,(rs)", "rd,lab"}
-    [] mn \in StoreOps -> {"rs2,imm(rs1)", "rs2,(rs1)", "rs2,lab,tmp"}
+    [] mn = "jalr" -> {"rs", "rd,rs,imm", "rd,imm(rs)", "rd,(rs)", "rs,imm"}
+    [] mn \in LoadOps \cup LoadOps64 -> {"rd,imm(rs)", "rd,(rs)", "rd,lab", "rd,imm"}
+    [] mn \in StoreOps -> {"rs2,imm(rs1)", "rs2,(rs1)", "rs2,lab,tmp", "rs2,imm", "rs2,imm,tmp"}
     [] mn \in BranchOps -> {"rs1,rs2,lab"}
     [] mn \in CsrOps   -> {"rd,csr,rs1"}
     [] mn \in CsrIOps  -> {"rd,csr,uimm"}
@@ -138,15 +138,19 @@ RefDecode(mn, form, o) ==
     [] mn = "jal"   -> << NJal(IF form = "lab" THEN 1 ELSE o.rd, o.lab) >>
     [] mn = "jalr"  ->
          IF form = "rs" THEN << NJalr(1, o.rs1, 0) >>
+         ELSE IF form = "rs,imm" THEN << NJalr(1, o.rs1, o.imm) >>      \* link register implied like in `jalr rs`
          ELSE IF form = "rd,(rs)" THEN << NJalr(o.rd, o.rs1, 0) >>
          ELSE << NJalr(o.rd, o.rs1, o.imm) >>
     [] mn \in LoadOps \cup LoadOps64 ->
          IF form = "rd,lab" THEN << NLa(o.rd, o.lab), NLoad(mn, o.rd, o.rd, 0) >>
          ELSE IF form = "rd,(rs)" THEN << NLoad(mn, o.rd, o.rs1, 0) >>
+         ELSE IF form = "rd,imm" THEN << NLoad(mn, o.rd, 0, o.imm) >>   \* absolute address: base x0
          ELSE << NLoad(mn, o.rd, o.rs1, o.imm) >>
     [] mn \in StoreOps ->
          IF form = "rs2,lab,tmp" THEN << NLa(o.rd, o.lab), NStore(mn, o.rd, o.rs2, 0) >>
          ELSE IF form = "rs2,(rs1)" THEN << NStore(mn, o.rs1, o.rs2, 0) >>
+         ELSE IF form = "rs2,imm" THEN << NStore(mn, 0, o.rs2, o.imm) >>
+         ELSE IF form = "rs2,imm,tmp" THEN << NIArith("addi", o.rd, 0, o.imm), NStore(mn, o.rd, o.rs2, 0) >>
          ELSE << NStore(mn, o.rs1, o.rs2, o.imm) >>
     [] mn \in BranchOps -> << NBranch(mn, o.rs1, o.rs2, o.lab) >>
     [] mn \in CsrOps    -> << NCsr(mn, o.rd, o.csr, o.rs1) >>
